@@ -227,8 +227,27 @@ func Load(root string, goarch string) (*Program, error) {
 		P.SSAPkg[p.PkgPath] = sp
 	}
 	P.AllFuncs = ssautil.AllFunctions(prog)
+	// a generic function is analysed through its instances (built with InstantiateGenerics): the body of the
+	// uninstantiated origin has no callers and no concrete types; it is kept only when nothing instantiates it
+	instantiated := map[*ssa.Function]bool{}
 	for fn := range P.AllFuncs {
-		if P.IsProductFunc(fn) {
+		for f := fn; f != nil; f = f.Parent() {
+			if o := f.Origin(); o != nil && o != f {
+				instantiated[o] = true
+			}
+		}
+	}
+	for fn := range P.AllFuncs {
+		if !P.IsProductFunc(fn) {
+			continue
+		}
+		skip := false
+		for f := fn; f != nil; f = f.Parent() {
+			if instantiated[f] && f.TypeParams().Len() > 0 && len(f.TypeArgs()) == 0 {
+				skip = true
+			}
+		}
+		if !skip {
 			P.ModFuncs = append(P.ModFuncs, fn)
 		}
 	}
